@@ -98,7 +98,7 @@ def feat(r):
 
 def signature(r, out, pid):
     s = {'kind': 'isa_mismatch' if pid == 'C03' else 'lane_structure', 'arch': r['arch'], 'fmt': r['f'], 'op': r['op'],
-         'out': out}
+         'out': out, 'st': r['st']}
     f = feat(r) if pid == 'C03' else ''
     if f:
         s['feat'] = f
